@@ -7,12 +7,18 @@ Property theorems only; helper lemmas live in `Proofs/VolumeLemmas.lean`, the ex
 
 * `Solid` — the solid bounded by a watertight mesh, as a CSG program over integer boxes; `mem S p` exact
   membership of the point with **doubled** coordinates `p` (half-integer points = odd entries, `Half p`).
-* `inVolumePoints S pts` — `navis.in_volume(points, vol)`; `inVolumeTree / inVolumeDots / inVolumeMesh S mode x` —
+* `Polytope` — a convex polytope in any orientation as a list of half-spaces with integer normals; `memPoly P p`.
+* `μ : Inside` (= `P3 → Bool`) — the inside test of one volume.  Sections 2–3 are proved for **every** `μ`: for exact
+  membership `mem S` / `memPoly P` of any solid, and equally for whatever a (deterministic) ray caster answers — the
+  complementarity of `IN` and `OUT`, the connector bookkeeping and the independence of several volumes do not depend on
+  the geometry at all.
+* `inVolumePoints μ pts` — `navis.in_volume(points, vol)`; `inVolumeTree / inVolumeDots / inVolumeMesh μ mode x` —
   `navis.in_volume(x, vol, mode=mode)` for a skeleton / point cloud / mesh neuron (= `x.prune_by_volume`);
   `inVolumeDict f vols` — the loop over a dict of volumes; `intersectionMatrix`.
 * `snapIdx data p` — `cKDTree(data).query(p)` as `(row, dist²)`; `snapTree t p` — `TreeNeuron.snap` `(node_id, dist²)`.
 
-What is **not** proved here: that the external ray caster (`ncollpyde`) computes `mem` for the mesh of `S`.
+What is **not** proved here: that the external ray caster (`ncollpyde`) computes `mem S` / `memPoly P` for the mesh of
+the solid.
 That is the correspondence tested on every run by `harness/c18.py` (DESIGN §5 C18, Limits).
 -/
 namespace Navis.Props.C18
@@ -60,6 +66,24 @@ theorem voxel_membership (vs : List P3) (w : P3) :
     mem (unionOf (vs.map cell)) (centre w) = vs.contains w ∧ Half (centre w) :=
   ⟨mem_voxels_centre vs w, half_centre w⟩
 
+/-- **Convex polytopes in any orientation.** A point is inside iff it is strictly on the inner side of every face plane;
+cutting with further planes is intersection; a point on no face plane is classified the same by the open and the closed
+polytope (no tolerance); an axis-aligned box is the polytope of its six face planes. -/
+theorem polytope_membership (P Q : Polytope) (p : P3) :
+    (memPoly P p = true ↔ ∀ h ∈ P, dot h.n p < 2 * h.d)
+    ∧ memPoly (P ++ Q) p = (memPoly P p && memPoly Q p)
+    ∧ (offFaces P p = true → memPoly P p = memPolyClosed P p) :=
+  ⟨memPoly_iff P p, memPoly_append P Q p, memPoly_eq_closed P p⟩
+
+theorem box_is_polytope (b : Box) (p : P3) : memPoly (boxPoly b) p = inBox b p := memPoly_boxPoly b p
+
+/-- the octahedron |x|+|y|+|z| < 3: centre-ish point inside, a point beyond a slanted face outside, both off all planes -/
+def exOcta : Polytope :=
+  [⟨⟨1, 1, 1⟩, 3⟩, ⟨⟨1, 1, -1⟩, 3⟩, ⟨⟨1, -1, 1⟩, 3⟩, ⟨⟨1, -1, -1⟩, 3⟩,
+   ⟨⟨-1, 1, 1⟩, 3⟩, ⟨⟨-1, 1, -1⟩, 3⟩, ⟨⟨-1, -1, 1⟩, 3⟩, ⟨⟨-1, -1, -1⟩, 3⟩]
+example : memPoly exOcta ⟨1, 1, 1⟩ = true ∧ memPoly exOcta ⟨3, 3, 1⟩ = false
+    ∧ offFaces exOcta ⟨1, 1, 1⟩ = true ∧ offFaces exOcta ⟨3, 3, 1⟩ = true := by decide
+
 /-- **Any integer pose.** Scaling by positive integers, flipping and permuting axes and translating the solid
 and the query point together does not change the answer. -/
 theorem membership_pose_invariant (π : Pose) (hπ : π.ok) (S : Solid) (hS : ∀ sb ∈ S, sb.2.ok) (p : P3) :
@@ -77,27 +101,27 @@ theorem pose_needs_proper_boxes :
   decide
 
 /-- **`in_volume(points, vol)`** answers every point by itself, in order. -/
-theorem mask_exact (S : Solid) (pts : List P3) :
-    (inVolumePoints S pts).length = pts.length ∧ ∀ i : Nat, (inVolumePoints S pts)[i]? = pts[i]?.map (mem S) := by
+theorem mask_exact (μ : Inside) (pts : List P3) :
+    (inVolumePoints μ pts).length = pts.length ∧ ∀ i : Nat, (inVolumePoints μ pts)[i]? = pts[i]?.map (μ) := by
   simp [inVolumePoints]
 
 /-! ## 2. `mode='IN'` and `mode='OUT'` are complementary -/
 
-/-- **in_out_partition (skeletons).** For every solid and every node table with unique ids: the nodes kept with
+/-- **in_out_partition (skeletons).** For every inside test `μ` (every solid) and every node table with unique ids: the nodes kept with
 `IN` followed by the nodes kept with `OUT` are a permutation of all nodes, no node (and no id) is kept by both,
 `IN` keeps exactly the nodes inside and `OUT` exactly the nodes outside. -/
-theorem in_out_partition (S : Solid) (t : Tree) (hn : t.ids.Nodup) :
-    ((inVolumeTree S .IN t).nodes ++ (inVolumeTree S .OUT t).nodes).Perm t.nodes
-    ∧ (∀ v ∈ (inVolumeTree S .IN t).nodes, v ∉ (inVolumeTree S .OUT t).nodes)
-    ∧ (∀ i ∈ (inVolumeTree S .IN t).ids, i ∉ (inVolumeTree S .OUT t).ids)
-    ∧ (∀ v, v ∈ (inVolumeTree S .IN t).nodes ↔ v ∈ t.nodes ∧ mem S v.pos = true)
-    ∧ (∀ v, v ∈ (inVolumeTree S .OUT t).nodes ↔ v ∈ t.nodes ∧ mem S v.pos = false) := by
-  rw [inVolumeTree_nodes S .IN t hn, inVolumeTree_nodes S .OUT t hn]
-  have hout : (t.nodes.filter fun v => keepPred S .OUT v.pos)
-      = t.nodes.filter fun v => !(fun v : Node => keepPred S .IN v.pos) v := rfl
-  have hI : ∀ v, v ∈ (t.nodes.filter fun v => keepPred S .IN v.pos) ↔ v ∈ t.nodes ∧ mem S v.pos = true := by
+theorem in_out_partition (μ : Inside) (t : Tree) (hn : t.ids.Nodup) :
+    ((inVolumeTree μ .IN t).nodes ++ (inVolumeTree μ .OUT t).nodes).Perm t.nodes
+    ∧ (∀ v ∈ (inVolumeTree μ .IN t).nodes, v ∉ (inVolumeTree μ .OUT t).nodes)
+    ∧ (∀ i ∈ (inVolumeTree μ .IN t).ids, i ∉ (inVolumeTree μ .OUT t).ids)
+    ∧ (∀ v, v ∈ (inVolumeTree μ .IN t).nodes ↔ v ∈ t.nodes ∧ μ v.pos = true)
+    ∧ (∀ v, v ∈ (inVolumeTree μ .OUT t).nodes ↔ v ∈ t.nodes ∧ μ v.pos = false) := by
+  rw [inVolumeTree_nodes μ .IN t hn, inVolumeTree_nodes μ .OUT t hn]
+  have hout : (t.nodes.filter fun v => keepPred μ .OUT v.pos)
+      = t.nodes.filter fun v => !(fun v : Node => keepPred μ .IN v.pos) v := rfl
+  have hI : ∀ v, v ∈ (t.nodes.filter fun v => keepPred μ .IN v.pos) ↔ v ∈ t.nodes ∧ μ v.pos = true := by
     intro v; rw [List.mem_filter]; rfl
-  have hO : ∀ v, v ∈ (t.nodes.filter fun v => keepPred S .OUT v.pos) ↔ v ∈ t.nodes ∧ mem S v.pos = false := by
+  have hO : ∀ v, v ∈ (t.nodes.filter fun v => keepPred μ .OUT v.pos) ↔ v ∈ t.nodes ∧ μ v.pos = false := by
     intro v; rw [List.mem_filter]; simp [keepPred]
   refine ⟨?_, ?_, ?_, hI, hO⟩
   · rw [hout]; exact List.filter_append_perm _ _
@@ -105,7 +129,7 @@ theorem in_out_partition (S : Solid) (t : Tree) (hn : t.ids.Nodup) :
     have h1 := (hI v).mp hv; have h2 := (hO v).mp hv'
     rw [h1.2] at h2; exact absurd h2.2 (by simp)
   · intro i hi hi'
-    simp only [Tree.ids, inVolumeTree_nodes S .IN t hn, inVolumeTree_nodes S .OUT t hn] at hi hi'
+    simp only [Tree.ids, inVolumeTree_nodes μ .IN t hn, inVolumeTree_nodes μ .OUT t hn] at hi hi'
     obtain ⟨v, hv, rfl⟩ := List.mem_map.mp hi
     obtain ⟨w, hw, hid⟩ := List.mem_map.mp hi'
     have h1 := (hI v).mp hv; have h2 := (hO w).mp hw
@@ -122,41 +146,41 @@ def exL : Solid := unionOf [⟨⟨0, 0, 0⟩, ⟨2, 1, 1⟩⟩, ⟨⟨0, 1, 0⟩
 example : exTree.ids.Nodup ∧ Attached exTree := by
   refine ⟨by decide, ?_⟩
   intro c hc; revert c; decide
-example : (inVolumeTree exL .IN exTree).ids = [70, 3, 5] ∧ (inVolumeTree exL .OUT exTree).ids = [12, 9] := by decide
-example : (inVolumeTree exL .IN exTree).conns.map (·.cid) = [100, 104]
-    ∧ (inVolumeTree exL .OUT exTree).conns.map (·.cid) = [101, 102, 103] := by decide
+example : (inVolumeTree (mem exL) .IN exTree).ids = [70, 3, 5] ∧ (inVolumeTree (mem exL) .OUT exTree).ids = [12, 9] := by decide
+example : (inVolumeTree (mem exL) .IN exTree).conns.map (·.cid) = [100, 104]
+    ∧ (inVolumeTree (mem exL) .OUT exTree).conns.map (·.cid) = [101, 102, 103] := by decide
 
 /-- the guard is needed: `node_id.isin(subset)` keeps *both* rows of a duplicated id on both sides -/
 def dupTree : Tree := { nodes := [⟨1, ⟨1, 1, 1⟩⟩, ⟨1, ⟨9, 1, 1⟩⟩], conns := [] }
 def unitCube : Solid := unionOf [⟨⟨0, 0, 0⟩, ⟨1, 1, 1⟩⟩]
 theorem in_out_partition_needs_unique_ids :
-    ¬ dupTree.ids.Nodup ∧ (inVolumeTree unitCube .IN dupTree).nodes = dupTree.nodes
-      ∧ (inVolumeTree unitCube .OUT dupTree).nodes = dupTree.nodes := by
+    ¬ dupTree.ids.Nodup ∧ (inVolumeTree (mem unitCube) .IN dupTree).nodes = dupTree.nodes
+      ∧ (inVolumeTree (mem unitCube) .OUT dupTree).nodes = dupTree.nodes := by
   decide
 
 /-- **each_carries_own_connectors.** After `in_volume` (either mode) the connector table is exactly the rows of the
 original table attached to a kept node — nothing else is dropped, nothing foreign is carried. -/
-theorem each_carries_own_connectors (S : Solid) (mode : Mode) (t : Tree) (hn : t.ids.Nodup) (ha : Attached t) :
-    (inVolumeTree S mode t).conns = t.conns.filter fun c => (inVolumeTree S mode t).ids.contains c.node := by
-  rw [inVolumeTree_eq_pruneBy S mode t hn ha]
+theorem each_carries_own_connectors (μ : Inside) (mode : Mode) (t : Tree) (hn : t.ids.Nodup) (ha : Attached t) :
+    (inVolumeTree μ mode t).conns = t.conns.filter fun c => (inVolumeTree μ mode t).ids.contains c.node := by
+  rw [inVolumeTree_eq_pruneBy μ mode t hn ha]
   rfl
 
 /-- **… and the two modes partition the connectors as well.** -/
-theorem connectors_partition (S : Solid) (t : Tree) (hn : t.ids.Nodup) (ha : Attached t) :
-    ((inVolumeTree S .IN t).conns ++ (inVolumeTree S .OUT t).conns).Perm t.conns
-    ∧ ∀ c ∈ (inVolumeTree S .IN t).conns, c ∉ (inVolumeTree S .OUT t).conns := by
-  have hdis := (in_out_partition S t hn).2.2.1
-  have eI := each_carries_own_connectors S .IN t hn ha
-  have eO := each_carries_own_connectors S .OUT t hn ha
+theorem connectors_partition (μ : Inside) (t : Tree) (hn : t.ids.Nodup) (ha : Attached t) :
+    ((inVolumeTree μ .IN t).conns ++ (inVolumeTree μ .OUT t).conns).Perm t.conns
+    ∧ ∀ c ∈ (inVolumeTree μ .IN t).conns, c ∉ (inVolumeTree μ .OUT t).conns := by
+  have hdis := (in_out_partition μ t hn).2.2.1
+  have eI := each_carries_own_connectors μ .IN t hn ha
+  have eO := each_carries_own_connectors μ .OUT t hn ha
   constructor
-  · rw [inVolumeTree_eq_pruneBy S .IN t hn ha, inVolumeTree_eq_pruneBy S .OUT t hn ha]
+  · rw [inVolumeTree_eq_pruneBy μ .IN t hn ha, inVolumeTree_eq_pruneBy μ .OUT t hn ha]
     simp only [pruneBy]
-    have : (t.conns.filter fun c => ((t.nodes.filter fun v => keepPred S .OUT v.pos).map (·.id)).contains c.node)
+    have : (t.conns.filter fun c => ((t.nodes.filter fun v => keepPred μ .OUT v.pos).map (·.id)).contains c.node)
         = t.conns.filter fun c =>
-            !(fun c : Conn => ((t.nodes.filter fun v => keepPred S .IN v.pos).map (·.id)).contains c.node) c := by
+            !(fun c : Conn => ((t.nodes.filter fun v => keepPred μ .IN v.pos).map (·.id)).contains c.node) c := by
       apply List.filter_congr
       intro c hc
-      exact conn_out_eq_not_in t.nodes hn (fun v => keepPred S .IN v.pos) c.node (ha c hc)
+      exact conn_out_eq_not_in t.nodes hn (fun v => keepPred μ .IN v.pos) c.node (ha c hc)
     rw [this]
     exact List.filter_append_perm _ _
   · intro c hc hc'
@@ -168,88 +192,88 @@ theorem connectors_partition (S : Solid) (t : Tree) (hn : t.ids.Nodup) (ha : Att
 survives when nothing is pruned (and is dropped as soon as one node is pruned) -/
 def danglingTree : Tree := { nodes := [⟨1, ⟨1, 1, 1⟩⟩], conns := [⟨100, 7⟩] }
 theorem own_connectors_needs_attached :
-    ¬ Attached danglingTree ∧ (inVolumeTree unitCube .IN danglingTree).conns = [⟨100, 7⟩]
-      ∧ (inVolumeTree unitCube .OUT danglingTree).conns = [] := by
+    ¬ Attached danglingTree ∧ (inVolumeTree (mem unitCube) .IN danglingTree).conns = [⟨100, 7⟩]
+      ∧ (inVolumeTree (mem unitCube) .OUT danglingTree).conns = [] := by
   refine ⟨?_, by decide, by decide⟩
   intro h
   have := h ⟨100, 7⟩ (by decide)
   revert this; decide
 
 /-- `x.prune_by_volume(v, mode)` *is* `in_volume(x, v, mode)` (it only forwards). -/
-theorem prune_by_volume_is_in_volume (S : Solid) (mode : Mode) (t : Tree) :
-    pruneByVolume S mode t = inVolumeTree S mode t := rfl
+theorem prune_by_volume_is_in_volume (μ : Inside) (mode : Mode) (t : Tree) :
+    pruneByVolume μ mode t = inVolumeTree μ mode t := rfl
 
 /-- A `NeuronList` is pruned neuron by neuron. -/
-theorem neuronlist_pointwise (S : Solid) (mode : Mode) (ts : List Tree) (i : Nat) :
-    (inVolumeList S mode ts)[i]? = ts[i]?.map (inVolumeTree S mode) := by
+theorem neuronlist_pointwise (μ : Inside) (mode : Mode) (ts : List Tree) (i : Nat) :
+    (inVolumeList μ mode ts)[i]? = ts[i]?.map (inVolumeTree μ mode) := by
   simp [inVolumeList]
 
 /-! ### point clouds (`Dotprops`) -/
 
-/-- **in_out_partition (point clouds).** Row indices kept by `IN` and by `OUT` partition `0..n-1`; `IN` keeps exactly
+/-- **in_out_partition (point clouds).** For every inside test: row indices kept by `IN` and by `OUT` partition `0..n-1`; `IN` keeps exactly
 the points inside.  No hypothesis. -/
-theorem dots_in_out_partition (S : Solid) (d : Dots) :
-    ((inVolumeDots S .IN d).kept ++ (inVolumeDots S .OUT d).kept).Perm (List.range d.pts.length)
-    ∧ (∀ i ∈ (inVolumeDots S .IN d).kept, i ∉ (inVolumeDots S .OUT d).kept)
-    ∧ (∀ i, i ∈ (inVolumeDots S .IN d).kept ↔ ∃ q, d.pts[i]? = some q ∧ mem S q = true)
-    ∧ (∀ i, i ∈ (inVolumeDots S .OUT d).kept ↔ ∃ q, d.pts[i]? = some q ∧ mem S q = false) := by
+theorem dots_in_out_partition (μ : Inside) (d : Dots) :
+    ((inVolumeDots μ .IN d).kept ++ (inVolumeDots μ .OUT d).kept).Perm (List.range d.pts.length)
+    ∧ (∀ i ∈ (inVolumeDots μ .IN d).kept, i ∉ (inVolumeDots μ .OUT d).kept)
+    ∧ (∀ i, i ∈ (inVolumeDots μ .IN d).kept ↔ ∃ q, d.pts[i]? = some q ∧ μ q = true)
+    ∧ (∀ i, i ∈ (inVolumeDots μ .OUT d).kept ↔ ∃ q, d.pts[i]? = some q ∧ μ q = false) := by
   rw [inVolumeDots_kept, inVolumeDots_kept]
-  refine ⟨selected_partition S d.pts, selected_disjoint S d.pts, ?_, ?_⟩
+  refine ⟨selected_partition μ d.pts, selected_disjoint μ d.pts, ?_, ?_⟩
   · intro i; rw [mem_selected]; rfl
   · intro i; rw [mem_selected]; simp [keepPred]
 
 /-- **each_carries_own_connectors (point clouds).** A connector belongs to its nearest point; the kept connectors are
 exactly those whose point is kept, and the rewritten `point` column addresses that same point in the pruned cloud. -/
-theorem dots_carry_own_connectors (S : Solid) (mode : Mode) (d : Dots) (hne : d.pts ≠ []) :
-    (inVolumeDots S mode d).conns.map (·.1)
-      = (d.conns.filter fun c => (inVolumeDots S mode d).kept.contains (attach d.pts c)).map (·.cid)
-    ∧ ∀ cj ∈ (inVolumeDots S mode d).conns,
-        ∃ c ∈ d.conns, c.cid = cj.1 ∧ (inVolumeDots S mode d).kept[cj.2]? = some (attach d.pts c) :=
-  ⟨inVolumeDots_conns S mode d hne, fun cj h => inVolumeDots_reindex S mode d hne cj h⟩
+theorem dots_carry_own_connectors (μ : Inside) (mode : Mode) (d : Dots) (hne : d.pts ≠ []) :
+    (inVolumeDots μ mode d).conns.map (·.1)
+      = (d.conns.filter fun c => (inVolumeDots μ mode d).kept.contains (attach d.pts c)).map (·.cid)
+    ∧ ∀ cj ∈ (inVolumeDots μ mode d).conns,
+        ∃ c ∈ d.conns, c.cid = cj.1 ∧ (inVolumeDots μ mode d).kept[cj.2]? = some (attach d.pts c) :=
+  ⟨inVolumeDots_conns μ mode d hne, fun cj h => inVolumeDots_reindex μ mode d hne cj h⟩
 
 def exDots : Dots :=
   { pts := [⟨-3, 1, 1⟩, ⟨-1, 1, 1⟩, ⟨1, 1, 1⟩, ⟨3, 1, 1⟩, ⟨5, 1, 1⟩],
     conns := [⟨100, ⟨-3, 1, 1⟩⟩, ⟨101, ⟨1, 3, 1⟩⟩, ⟨102, ⟨1, 1, 1⟩⟩, ⟨103, ⟨5, 1, 1⟩⟩] }
 def exBar : Solid := unionOf [⟨⟨0, 0, 0⟩, ⟨2, 1, 1⟩⟩]
 
-example : inVolumeDots exBar .IN exDots = ⟨[2, 3], [(101, 0), (102, 0)]⟩
-    ∧ inVolumeDots exBar .OUT exDots = ⟨[0, 1, 4], [(100, 0), (103, 2)]⟩ := by decide
+example : inVolumeDots (mem exBar) .IN exDots = ⟨[2, 3], [(101, 0), (102, 0)]⟩
+    ∧ inVolumeDots (mem exBar) .OUT exDots = ⟨[0, 1, 4], [(100, 0), (103, 2)]⟩ := by decide
 
 /-! ### mesh neurons -/
 
 /-- The vertices *selected* by the volume test (`subset`, before `submesh` looks at the faces) always partition, and the
 connectors are split by the selection; the surviving vertices are a subset of the selected ones.  No hypothesis. -/
-theorem mesh_selection_partition (S : Solid) (m : Mesh) :
-    ((inVolumeMesh S .IN m).subset ++ (inVolumeMesh S .OUT m).subset).Perm (List.range m.verts.length)
-    ∧ (∀ i ∈ (inVolumeMesh S .IN m).subset, i ∉ (inVolumeMesh S .OUT m).subset)
-    ∧ (∀ mode, ∀ i ∈ (inVolumeMesh S mode m).kept, i ∈ (inVolumeMesh S mode m).subset) := by
+theorem mesh_selection_partition (μ : Inside) (m : Mesh) :
+    ((inVolumeMesh μ .IN m).subset ++ (inVolumeMesh μ .OUT m).subset).Perm (List.range m.verts.length)
+    ∧ (∀ i ∈ (inVolumeMesh μ .IN m).subset, i ∉ (inVolumeMesh μ .OUT m).subset)
+    ∧ (∀ mode, ∀ i ∈ (inVolumeMesh μ mode m).kept, i ∈ (inVolumeMesh μ mode m).subset) := by
   rw [inVolumeMesh_subset, inVolumeMesh_subset]
-  exact ⟨selected_partition S m.verts, selected_disjoint S m.verts, fun mode i h => inVolumeMesh_kept_sub S mode m i h⟩
+  exact ⟨selected_partition μ m.verts, selected_disjoint μ m.verts, fun mode i h => inVolumeMesh_kept_sub μ mode m i h⟩
 
-theorem mesh_carries_own_connectors (S : Solid) (mode : Mode) (m : Mesh) (hne : m.verts ≠ []) :
-    (inVolumeMesh S mode m).conns.map (·.1)
-      = (m.conns.filter fun c => (inVolumeMesh S mode m).subset.contains (attach m.verts c)).map (·.cid) :=
-  inVolumeMesh_conns S mode m hne
+theorem mesh_carries_own_connectors (μ : Inside) (mode : Mode) (m : Mesh) (hne : m.verts ≠ []) :
+    (inVolumeMesh μ mode m).conns.map (·.1)
+      = (m.conns.filter fun c => (inVolumeMesh μ mode m).subset.contains (attach m.verts c)).map (·.cid) :=
+  inVolumeMesh_conns μ mode m hne
 
 /-- **in_out_partition (meshes) — partial.**  Full statement wanted by the property text:
-`∀ S m, (kept IN ++ kept OUT).Perm (range n)`.  That is *false* for the code (see `mesh_straddling_face_loses_vertices`):
+`∀ μ m, (kept IN ++ kept OUT).Perm (range n)`.  That is *false* for the code (see `mesh_straddling_face_loses_vertices`):
 `submesh` drops every face with vertices on both sides and then every vertex left without a face.  Proved here: on a mesh
 without straddling faces, whose faces address existing vertices and whose vertices all carry a face, the surviving vertices
 are exactly the selected ones, hence `IN` and `OUT` partition the vertices, `IN` keeping exactly those inside. -/
-theorem mesh_in_out_partition_partial (S : Solid) (m : Mesh) (hv : FacesValid m) (hr : Referenced m)
-    (hs : NoStraddle S m) :
-    ((inVolumeMesh S .IN m).kept ++ (inVolumeMesh S .OUT m).kept).Perm (List.range m.verts.length)
-    ∧ (∀ i ∈ (inVolumeMesh S .IN m).kept, i ∉ (inVolumeMesh S .OUT m).kept)
-    ∧ (∀ i, i ∈ (inVolumeMesh S .IN m).kept ↔ ∃ q, m.verts[i]? = some q ∧ mem S q = true)
-    ∧ (∀ mode, (inVolumeMesh S mode m).kept = (inVolumeMesh S mode m).subset) := by
-  have eI := inVolumeMesh_kept_of_noStraddle S .IN m hv hr hs
-  have eO := inVolumeMesh_kept_of_noStraddle S .OUT m hv hr hs
+theorem mesh_in_out_partition_partial (μ : Inside) (m : Mesh) (hv : FacesValid m) (hr : Referenced m)
+    (hs : NoStraddle μ m) :
+    ((inVolumeMesh μ .IN m).kept ++ (inVolumeMesh μ .OUT m).kept).Perm (List.range m.verts.length)
+    ∧ (∀ i ∈ (inVolumeMesh μ .IN m).kept, i ∉ (inVolumeMesh μ .OUT m).kept)
+    ∧ (∀ i, i ∈ (inVolumeMesh μ .IN m).kept ↔ ∃ q, m.verts[i]? = some q ∧ μ q = true)
+    ∧ (∀ mode, (inVolumeMesh μ mode m).kept = (inVolumeMesh μ mode m).subset) := by
+  have eI := inVolumeMesh_kept_of_noStraddle μ .IN m hv hr hs
+  have eO := inVolumeMesh_kept_of_noStraddle μ .OUT m hv hr hs
   refine ⟨?_, ?_, ?_, ?_⟩
-  · rw [eI, eO]; exact selected_partition S m.verts
-  · rw [eI, eO]; exact selected_disjoint S m.verts
+  · rw [eI, eO]; exact selected_partition μ m.verts
+  · rw [eI, eO]; exact selected_disjoint μ m.verts
   · intro i; rw [eI, mem_selected]; rfl
   · intro mode
-    rw [inVolumeMesh_kept_of_noStraddle S mode m hv hr hs, inVolumeMesh_subset]
+    rw [inVolumeMesh_kept_of_noStraddle μ mode m hv hr hs, inVolumeMesh_subset]
 
 /-- two triangles far apart, one inside, one outside -/
 def exMesh : Mesh :=
@@ -257,15 +281,15 @@ def exMesh : Mesh :=
     faces := [⟨0, 1, 2⟩, ⟨3, 4, 5⟩], conns := [⟨100, ⟨1, 1, 3⟩⟩, ⟨101, ⟨23, 1, 3⟩⟩] }
 def exCube : Solid := unionOf [⟨⟨0, 0, 0⟩, ⟨2, 2, 2⟩⟩]
 
-example : FacesValid exMesh ∧ Referenced exMesh ∧ NoStraddle exCube exMesh := by
+example : FacesValid exMesh ∧ Referenced exMesh ∧ NoStraddle (mem exCube) exMesh := by
   refine ⟨?_, ?_, ?_⟩
   · intro f hf; revert f; decide
   · intro i hi
     have : i ∈ List.range 6 := List.mem_range.mpr hi
     revert i; decide
   · intro f hf; revert f; decide
-example : (inVolumeMesh exCube .IN exMesh).kept = [0, 1, 2] ∧ (inVolumeMesh exCube .OUT exMesh).kept = [3, 4, 5]
-    ∧ (inVolumeMesh exCube .IN exMesh).conns = [(100, 0)] ∧ (inVolumeMesh exCube .OUT exMesh).conns = [(101, 1)] := by
+example : (inVolumeMesh (mem exCube) .IN exMesh).kept = [0, 1, 2] ∧ (inVolumeMesh (mem exCube) .OUT exMesh).kept = [3, 4, 5]
+    ∧ (inVolumeMesh (mem exCube) .IN exMesh).conns = [(100, 0)] ∧ (inVolumeMesh (mem exCube) .OUT exMesh).conns = [(101, 1)] := by
   decide
 
 /-- **Counter-example to the full statement (open finding).**  One triangle with one vertex inside the cube and two
@@ -274,10 +298,10 @@ while the connector on vertex 0 is still carried by the (empty) `IN` part with a
 def straddleMesh : Mesh :=
   { verts := [⟨1, 1, 1⟩, ⟨21, 1, 1⟩, ⟨21, 3, 1⟩], faces := [⟨0, 1, 2⟩], conns := [⟨100, ⟨1, 1, 3⟩⟩] }
 theorem mesh_straddling_face_loses_vertices :
-    ¬ NoStraddle exCube straddleMesh
-    ∧ (inVolumeMesh exCube .IN straddleMesh).subset = [0] ∧ (inVolumeMesh exCube .OUT straddleMesh).subset = [1, 2]
-    ∧ (inVolumeMesh exCube .IN straddleMesh).kept = [] ∧ (inVolumeMesh exCube .OUT straddleMesh).kept = []
-    ∧ (inVolumeMesh exCube .IN straddleMesh).conns = [(100, 0)] := by
+    ¬ NoStraddle (mem exCube) straddleMesh
+    ∧ (inVolumeMesh (mem exCube) .IN straddleMesh).subset = [0] ∧ (inVolumeMesh (mem exCube) .OUT straddleMesh).subset = [1, 2]
+    ∧ (inVolumeMesh (mem exCube) .IN straddleMesh).kept = [] ∧ (inVolumeMesh (mem exCube) .OUT straddleMesh).kept = []
+    ∧ (inVolumeMesh (mem exCube) .IN straddleMesh).conns = [(100, 0)] := by
   refine ⟨?_, by decide, by decide, by decide, by decide, by decide⟩
   intro h
   have := h ⟨0, 1, 2⟩ (by decide)
@@ -288,7 +312,7 @@ theorem mesh_straddling_face_loses_vertices :
 /-- **volumes_independent.** For *any* single-volume answer `f` (mask of points, pruned neuron, pruned neuron list), any
 number of volumes with distinct names, in any order: the result has exactly the given names in the given order and
 under each name exactly the answer the volume would get on its own. -/
-theorem volumes_independent {β : Type} (f : Solid → β) (vols : List (String × Solid)) (h : (vols.map (·.1)).Nodup) :
+theorem volumes_independent {σ β : Type} (f : σ → β) (vols : List (String × σ)) (h : (vols.map (·.1)).Nodup) :
     inVolumeDict f vols = vols.map (fun kv => (kv.1, f kv.2))
     ∧ (∀ k S, (k, S) ∈ vols → dget (inVolumeDict f vols) k = some (f S))
     ∧ (∀ k, k ∉ vols.map (·.1) → dget (inVolumeDict f vols) k = none) := by
@@ -300,7 +324,7 @@ theorem volumes_independent {β : Type} (f : Solid → β) (vols : List (String 
     rw [e, dget_map, dget_none_of_not_mem vols k hk]; rfl
 
 /-- the answers do not depend on the order in which the volumes are passed -/
-theorem volumes_order_irrelevant {β : Type} (f : Solid → β) (vols vols' : List (String × Solid))
+theorem volumes_order_irrelevant {σ β : Type} (f : σ → β) (vols vols' : List (String × σ))
     (h : (vols.map (·.1)).Nodup) (hp : vols.Perm vols') (k : String) :
     dget (inVolumeDict f vols) k = dget (inVolumeDict f vols') k := by
   have h' : (vols'.map (·.1)).Nodup := (hp.map _).nodup_iff.mp h
@@ -312,7 +336,7 @@ theorem volumes_order_irrelevant {β : Type} (f : Solid → β) (vols vols' : Li
 
 /-- a *list* of volumes is keyed by `Volume.name`: distinct names ⇒ same as the dict; a duplicated name is refused
 (navis raises `ValueError`) instead of silently overwriting an answer -/
-theorem volumes_list {β : Type} (f : Solid → β) (vols : List (String × Solid)) :
+theorem volumes_list {σ β : Type} (f : σ → β) (vols : List (String × σ)) :
     ((vols.map (·.1)).Nodup → inVolumeNamed f vols = some (vols.map fun kv => (kv.1, f kv.2)))
     ∧ (¬ (vols.map (·.1)).Nodup → inVolumeNamed f vols = none) := by
   constructor
@@ -327,15 +351,18 @@ example : ((([("a", exL), ("b", exBar), ("c", exCube)] : List (String × Solid))
 
 /-- **`intersection_matrix`**: the row of volume `k` holds, per neuron, the attribute of that neuron pruned to that
 volume alone. -/
-theorem intersection_matrix_cell {β : Type} (attr : Tree → β) (mode : Mode) (vols : List (String × Solid))
-    (h : (vols.map (·.1)).Nodup) (ts : List Tree) (k : String) (S : Solid) (hm : (k, S) ∈ vols) :
-    dget (intersectionMatrix attr mode vols ts) k = some (ts.map fun t => attr (inVolumeTree S mode t)) := by
+theorem intersection_matrix_cell {σ β : Type} (inside : σ → Inside) (attr : Tree → β) (mode : Mode)
+    (vols : List (String × σ)) (h : (vols.map (·.1)).Nodup) (ts : List Tree) (k : String) (S : σ)
+    (hm : (k, S) ∈ vols) :
+    dget (intersectionMatrix inside attr mode vols ts) k
+      = some (ts.map fun t => attr (inVolumeTree (inside S) mode t)) := by
   unfold intersectionMatrix
-  rw [(volumes_independent (fun S => inVolumeList S mode ts) vols h).1, List.map_map]
-  have : ((fun kv : String × List Tree => (kv.1, kv.2.map attr)) ∘ fun kv : String × Solid =>
-      (kv.1, inVolumeList kv.2 mode ts)) = fun kv => (kv.1, (fun S => (inVolumeList S mode ts).map attr) kv.2) := rfl
+  rw [(volumes_independent (fun v => inVolumeList (inside v) mode ts) vols h).1, List.map_map]
+  have : ((fun kv : String × List Tree => (kv.1, kv.2.map attr)) ∘ fun kv : String × σ =>
+      (kv.1, inVolumeList (inside kv.2) mode ts))
+      = fun kv => (kv.1, (fun v => (inVolumeList (inside v) mode ts).map attr) kv.2) := rfl
   rw [this]
-  refine (dget_map (fun S => (inVolumeList S mode ts).map attr) vols k).trans ?_
+  refine (dget_map (fun v => (inVolumeList (inside v) mode ts).map attr) vols k).trans ?_
   rw [dget_of_mem vols h k S hm]
   simp [inVolumeList, List.map_map, Function.comp_def]
 
@@ -423,8 +450,8 @@ theorem checkNearest_sound (data : List P3) (p : P3) (ix : Nat) (dd : Int) :
   | none => simp
   | some q => simp [List.all_eq_true]
 
-theorem checkMask_sound (S : Solid) (pts : List P3) (mask : List Bool) :
-    checkMask S pts mask = true ↔ mask = pts.map (mem S) := by
+theorem checkMask_sound (μ : Inside) (pts : List P3) (mask : List Bool) :
+    checkMask μ pts mask = true ↔ mask = pts.map μ := by
   simp [checkMask, inVolumePoints]
 
 end Navis.Props.C18
